@@ -75,11 +75,11 @@ StarLen2Num(G, i) == G[Oj(i)][Oj(i)] * G[Ok(i)][Ok(i)] - G[Oj(i)][Ok(i)] * G[Oj(
 (* a^2 b c: numerator G_ij G_ik - G_ii G_jk, denominator^2 = (G_ii G_kk - G_ik^2)(G_ii G_jj - G_ij^2) *)
 StarCosNum(G, i) == G[i][Oj(i)] * G[i][Ok(i)] - G[i][i] * G[Oj(i)][Ok(i)]
 StarCosDen2(G, i) == (G[i][i]*G[Ok(i)][Ok(i)] - G[i][Ok(i)]*G[i][Ok(i)]) * (G[i][i]*G[Oj(i)][Oj(i)] - G[i][Oj(i)]*G[i][Oj(i)])
-StarFormulasAgree(G) ==
-  LET A == M3Adj(G) IN
+StarFormulasAgreeA(G, A) ==            \* A = adj(G)
   \A i \in Ix : /\ StarLen2Num(G, i) = A[i][i]
                 /\ StarCosNum(G, i) = A[Oj(i)][Ok(i)]
                 /\ StarCosDen2(G, i) = A[Oj(i)][Oj(i)] * A[Ok(i)][Ok(i)]
+StarFormulasAgree(G) == StarFormulasAgreeA(G, M3Adj(G))
 
 (* set_lengths_and_angles builds the lower triangular T with T T^T = s^2 G and   *)
 (* its inverse in closed form.  With a^2 = G11, q^2 = adj33 = G11 G22 - G12^2    *)
@@ -87,15 +87,14 @@ StarFormulasAgree(G) ==
 (*   T   = [ a, 0, 0 ; G12/a, q/a, 0 ; G13/a, (G11 G23 - G12 G13)/(a q), v/q ]   *)
 (*   Inv = [ 1/a, 0, 0 ; -G12/(a q), a/q, 0 ; adj31/(v q), adj32/(v q), q/v ]    *)
 (* so that T T^T = G and T Inv = I reduce to these polynomial identities:       *)
-CholeskyIdentities(G) ==
-  LET A == M3Adj(G)
-      D == M3Det(G)
-      w == G[1][1]*G[2][3] - G[1][2]*G[1][3]
+CholeskyIdentitiesA(G, A, D) ==        \* A = adj(G), D = det(G)
+  LET w == G[1][1]*G[2][3] - G[1][2]*G[1][3]
   IN /\ G[1][2]*G[1][2] + A[3][3] = G[1][1]*G[2][2]                              \* (T T^T)22
      /\ G[1][3]*G[1][2] + w = G[1][1]*G[2][3]                                    \* (T T^T)32
      /\ G[1][3]*G[1][3]*A[3][3] + w*w + G[1][1]*D = G[3][3]*G[1][1]*A[3][3]       \* (T T^T)33
      /\ G[1][3]*A[3][3] - G[1][2]*w + G[1][1]*A[3][1] = 0                         \* (T Inv)31
      /\ w + A[3][2] = 0                                                          \* (T Inv)32
+CholeskyIdentities(G) == CholeskyIdentitiesA(G, M3Adj(G), M3Det(G))
 (* signed squares t|t| of the entries of T (divided by s^2), as exact rationals *)
 CholSq(G, i, j) ==
   LET A == M3Adj(G)
